@@ -68,7 +68,8 @@ PROPS = {
             "sorted/disjoint/non-abutting. That is 5 of ~300 tables: Script, Script_Extensions, General_Category "
             "values other than Cc, almost all binary properties, properties of strings, alias wiring and rejection "
             "of unknown names are NOT checked (no independent Unicode 17 source exists in the sandbox)."),
-    "C12": ("other", "CodePointSet algebra against a set-of-code-points view: inverted/intersect unbounded (Verus, on the "
+    "C12": ("other", "CodePointSet algebra against a set-of-code-points view: inverted/intersect/add_set/add_one (modulo add), "
+            "mergeable/merge_intervals/contains_all_codepoints unbounded (Verus, on the "
             "mechanically extracted real functions), add/add_one/remove/contains on vectors of concrete length with "
             "symbolic contents (Kani), bracket matching = membership XOR invert. Class-set parsing beyond bounded "
             "inputs is not decided."),
